@@ -200,8 +200,29 @@ def check_bm_arith(ctx, k, gsize, ibits, signed):
     ctx.expect(paths, ret=6, abort=6)
 
 
+def check_bm_after_failed(ctx):
+    size = 1 << 32
+    bx = ctx.sandbox_base(32, "bx", aligned=False)
+    b1 = ctx.sandbox_base(32, "b1", aligned=False)
+    p = ctx.sym("p", 64)
+    ctx.assume(ctx.in_region(p, b1, size))
+    n = ctx.sym("n", 32)
+    E = zext(p, 128) - zext(n, 128) * 4
+    B = zext(b1, 128)
+    inside = z3.And(E >= B, E < B + size)
+    paths = ctx.run("k_bm_sub_after_failed", [bx, b1, p, n])
+    for q in paths:
+        if q.status == "ret":
+            ctx.require(q, z3.And(inside, zext(q.ret, 128) == E), "returns only when the exact address is inside the live sandbox (a dead or failed one nearby is no sandbox)")
+        elif q.status == "abort":
+            ctx.require(q, z3.Not(inside), "aborts only when the exact address is outside the live sandbox")
+    ctx.only(paths, "ret", "abort")
+    ctx.expect(paths, ret=2, abort=2)
+
+
 def jobs(tier, seed):
     out = []
+    out.append(Job("C05_BM_after_failed", '#include "C05_bm.inc"\n', [dict(name="BM arithmetic after a failed creation, a retry and a destroy", fn=check_bm_after_failed)], unwind=200, native=False))
     out.append(Job("C05_BM_idx", '#include "C05_bm.inc"\n',
                    [dict(name="BM k_bm_idx", fn=check_bm_arith, kw=dict(k="k_bm_idx", gsize=2, ibits=32, signed=False))], unwind=200, native=False))
     if tier == "thorough":
